@@ -28,3 +28,9 @@ claimed["C05"] = dict(
     text="For every enumerated commit, reset --mixed to it leaves a staging area equal to the independently flattened snapshot, ls-files -s prints it, and cat-file -p of the root and every sub-tree lists exactly the direct children with kind, id and complete name.",
     note="Trusted: gitfmt tree/commit/index decoders. Name sets above the size bound and names outside the universe are not covered.",
 )
+claimed["C09"] = dict(
+    category="model_checking",
+    technique="explicit-state BFS over (HEAD snapshot, staging area, working tree) triples; every restore / restore --staged invocation over files, existing and deleted directories, unknown paths and pairs is compared with a map reference model",
+    text="For every reachable triple within the depth bound and every argument of the alphabet (incl. directory names that are substrings of other tracked names and a name with a regexp metacharacter), restore leaves exactly the named tracked files byte-identical to their staged blobs (present on disk or not), restore --staged leaves exactly the named entries equal to HEAD's, nothing else changes, and a path known to neither is refused with the state unchanged.",
+    note="Trusted: gitfmt and engine/model.go. Exit status of a no-op restore --staged is left open, as the statement is silent.",
+)
